@@ -541,10 +541,10 @@ def op_f2x(M, ch, tr, st, rng, s, where):
     check_after_send(s, where)
 
 
-def finalize(M, s, st, tr):
+def finalize(M, s, st, tr, get_force=True):
     where = f"{s.sys.kind}/order{s.sys.order}"
     with _Sut("finalize", session=s.id, solver=where):
-        sol = s.ts.finalize(get_force=True)
+        sol = s.ts.finalize(get_force=True) if get_force else s.ts.finalize()
     ref = s.ref.tsolve(s.Fm.copy(), **{k: (None if v is None else (v.copy() if hasattr(v, "copy") else v)) for k, v in s.kw.items()})
     sd, sv, sa = _scales(ref, s.sys.h, s)
     for name, sc in (("d", sd), ("v", sv), ("a", sa)):
@@ -554,7 +554,7 @@ def finalize(M, s, st, tr):
         if why is not None:
             raise Violation("final_solution_wrong", f"{where}:finalize.{name}", session=s.id, reason=why, ops=s.ops[-10:], tol=s.tol, nt=s.nt)
         s.maxerr = max(s.maxerr, err or 0.0)
-    if not np.array_equal(sol.force, s.Fm):
+    if get_force and not np.array_equal(sol.force, s.Fm):
         raise Violation("final_force_wrong", f"{where}:finalize.force", session=s.id)
     if not np.array_equal(np.asarray(sol.t), np.asarray(ref.t)) or sol.h != ref.h:
         raise Violation("final_time_wrong", f"{where}:finalize.t", got=np.asarray(sol.t).tolist()[:5], expected=np.asarray(ref.t).tolist()[:5])
@@ -689,7 +689,7 @@ def drive(M, ch, tr, st, rng, sessions, nops, knobs, allops):
             allops.append(s.ops[-1] + " (drain)")
             steps += 1
     for s in sessions:
-        finalize(M, s, st, tr)
+        finalize(M, s, st, tr, get_force=not ch.flip(1, 4, "finalize_without_force"))
     return steps
 
 
